@@ -128,6 +128,9 @@ var settings = []setting{
 	// the property is stated for vertex locking / clamping ON: V1 with LockVertices, V2 with FarAway < 1/2
 	{"V1 lock=true", runV1(true), seqV1(true)},
 	{"V2 default (FarAway 0.499999, CenterPush 0.01)", runV2(0.499999, 0.01), seqV2(0.499999, 0.01)}, {"V2 FarAway=0.25", runV2(0.25, 0.01), seqV2(0.25, 0.01)}, {"V2 CenterPush=0.1", runV2(0.499999, 0.1), seqV2(0.499999, 0.1)},
+	// push towards the cell centre switched off / negligible: singular positioning systems (flat faces, straight
+	// edges) occur in almost every cell and must all fall back to the cell centre
+	{"V2 CenterPush=0", runV2(0.499999, 0), seqV2(0.499999, 0)}, {"V2 CenterPush=1e-9", runV2(0.499999, 1e-9), seqV2(0.499999, 1e-9)},
 }
 
 // trilinear lookup field over the lattice bbMin + i*h, i = 0..n
